@@ -15,6 +15,8 @@ FORBIDDEN = re.compile(r'\b(sorry|admit|native_decide|bv_decide|implemented_by|u
 # which streams serve which property (module name under harness/, and the property filter passed to gen)
 STREAMS = {
     'C05': ['bufstream'], 'C06': ['bufstream'], 'C13': ['bufstream'], 'C16': ['bufstream'],
+    'C01': ['schcstream'], 'C02': ['schcstream'], 'C03': ['schcstream'], 'C04': ['schcstream'], 'C10': ['schcstream'],
+    'C11': ['schcstream'], 'C15': ['schcstream'], 'C17': ['schcstream'], 'C18': ['schcstream'], 'C20': ['schcstream'],
 }
 
 def load_json(path, default):
@@ -129,7 +131,7 @@ class Run:
         model = None
         if judge_model and self.driver_ok:
             try:
-                model = common.run_driver(lines)
+                model = common.run_driver([mod.model_line(l) for l in lines] if hasattr(mod, 'model_line') else lines)
             except Exception as e:
                 self.broken.append({'kind': 'driver', 'stream': modname, 'what': str(e)[:500]})
         known = self.known
@@ -143,7 +145,9 @@ class Run:
                 elif len(self.violations) < 50:
                     self.violations.append({'stream': modname, 'op': line, 'implementation': out, 'problems': mine,
                                             'model': model[i] if model else None, 'seed': seed})
-            if model is not None and model[i] != out:
+            if model is not None and model[i] == 'err:unmodelled':
+                self.cov.branches['model:unmodelled'] += 1
+            elif model is not None and model[i] != out:
                 self.disagreements += 1
                 if sum(1 for b in self.broken if b['kind'] == 'correspondence') < 5:
                     self.broken.append({'kind': 'correspondence', 'stream': modname, 'op': line, 'implementation': out, 'model': model[i]})
